@@ -85,6 +85,9 @@ def property_fails_on(op, impl):
                 bad = fanout_missing(f, reqs, status)
                 if bad:
                     return bad
+        bad = notify_oracle(f, status, notes)
+        if bad:
+            return bad
     if segs and segs[0] == "config" and f.get("cidr") == "1":
         out = f.get("innet") == "0" or f.get("lfail", "-") != "-" and "6e65742e53706c6974486f7374506f7274" in f["lfail"] \
             or "6970203d3d206e696c" in f.get("other", "")
@@ -94,6 +97,38 @@ def property_fails_on(op, impl):
                     m, segs[-1], status, cfgw)
     if m == "GET" and under_api and status == 403:
         return "read-only view /%s answered 403" % "/".join(segs)
+    return None
+
+
+def notify_oracle(f, status, notes):
+    """Exactly one notification per performed action, none without an admin identity / a configured endpoint /
+    a performed action — from the request and the answer alone (no Lean). pause/unpause/empty announce before
+    they look at the upstream error, so a 502 of theirs still notifies (what the code does, see docs/C17.md)."""
+    segs, m = f["segs"], f["m"]
+    got = [] if notes == "-" else notes.split(",")
+    where = "%s /%s" % (m, "/".join(segs))
+    if not is_admin(f) or f.get("notify") != "1":
+        if got:
+            return "%s notified %s %s" % (where, ",".join(got), "without an admin identity" if not is_admin(f)
+                                          else "although no notification endpoint is configured")
+        return None
+    want = []
+    if m == "POST" and len(segs) == 2:
+        if status == 200:
+            want = ["create_topic"] + (["create_channel"] if unhex(f.get("bchan", "-")) != "" else [])
+    elif m == "POST" and len(segs) in (3, 4):
+        act = unhex(f.get("action", "-"))
+        if status in (200, 502) and act in ("pause", "unpause", "empty"):
+            want = [act + ("_channel" if len(segs) == 4 else "_topic")]
+    elif m == "DELETE" and len(segs) == 3 and segs[1] == "nodes":
+        if status == 200:
+            want = ["tombstone_topic_producer"]
+    elif m == "DELETE" and len(segs) in (3, 4):
+        if status == 200:
+            want = ["delete_channel" if len(segs) == 4 else "delete_topic"]
+    if sorted(got) != sorted(want):
+        return "%s answered %d and notified [%s]; one notification per performed action would be [%s]" % (
+            where, status, ",".join(got), ",".join(want))
     return None
 
 
